@@ -91,6 +91,8 @@ def run_case(seed, tier, rec, st):
     F = _FORMATS[fname]
     if rng.random() < 0.05:
         return discriminated_on_format_mixin(rng, rec, fname, F)
+    if rng.random() < 0.03:
+        return orjson_config_options_case(rng, rec)
     fam = Family("c04", future_annotations=rng.random() < 0.1)
     try:
         multi = rng.random() < 0.3
@@ -122,10 +124,26 @@ def run_case(seed, tier, rec, st):
                 fields.append({"n": "nxt", "t": ("opt", ("self",), "Optional"), "dmode": "default", "dseed": 0, "const_default": None})
             else:
                 fields.append({"n": "kids", "t": ("seq", "List", ("self",)), "dmode": "factory", "dseed": 0, "const_default": []})
+        call_dialect = rng.random() < 0.3
+        if call_dialect:
+            # the class accepts a call dialect; one that customises nothing is passed to the format methods AND to
+            # to_dict / from_dict, in random order (the methods compiled per dialect must stay apart per format)
+            wcfg["code_generation_options"] = "[ADD_DIALECT_SUPPORT]"
+            fam.exec_src("class EmptyD(Dialect):\n    pass\n")
         fam.add({"k": "dc", "name": wname, "bases": [], "mixin": mixin_src, "fields": fields, "config": wcfg}, tg.value_maker)
         W = fam.get(wname)
         t = ("dc", wname)
         ref = Ref(fam)
+        hexcodec = None
+        if fname == "msgpack" and rng.random() < 0.4:
+            # codec objects with a user dialect that takes over a type the format keeps native (bytes as hex text):
+            # encoder and decoder must both put the user's registration ABOVE the format's
+            fam.exec_src("class HexD(Dialect):\n    serialization_strategy = {bytes: {'serialize': bytes.hex, 'deserialize': bytes.fromhex}}\n")
+            try:
+                hexcodec = (F["E"](W, default_dialect=fam.module.HexD), F["D"](W, default_dialect=fam.module.HexD))
+            except Exception as e:
+                rec.violation(f"{fname}:codec-build-custom-bytes-dialect:{type(e).__name__}", {"type": fam.to_json(), "error": str(e)[:300]}, {"stage": "build"})
+                return
         if rng.random() < 0.5:
             # history: codec objects of ANOTHER format for the same class exist already
             try:
@@ -215,6 +233,19 @@ def run_case(seed, tier, rec, st):
                                 pass
                 if is_dc and j % 2 == 1:
                     routes.append(("codec-neutral-dialect", lambda: enc_n.encode(v), lambda doc: dec_n.decode(doc)))
+                if is_dc and call_dialect:
+                    ED = fam.module.EmptyD
+                    def _dict_calls():
+                        try:
+                            W.from_dict(v.to_dict(dialect=ED), dialect=ED)
+                        except Exception:
+                            pass
+                    if rng.random() < 0.5:
+                        _dict_calls()
+                    routes.append(("mixin+empty-call-dialect", lambda: getattr(v, F["to"])(dialect=ED), lambda doc: getattr(W, F["frm"])(doc, dialect=ED)))
+                    if rng.random() < 0.5:
+                        routes.append(("mixin-after-dict-calls-with-the-dialect", lambda: (_dict_calls(), getattr(v, F["to"])(dialect=ED))[1],
+                                       lambda doc: getattr(W, F["frm"])(doc, dialect=ED)))
                 if j % 3 == 0:
                     ttl = W if is_dc else common.eval_type(fam, tt)
                     routes.append(("func", lambda: F["fe"](v, ttl), lambda doc: F["fd"](doc, ttl)))
@@ -272,6 +303,34 @@ def run_case(seed, tier, rec, st):
                     else:
                         rec.violation(f"{fname}:{rname}:roundtrip-mismatch", det(doc=common.short(doc, 300), decoded=common.short(r, 400)),
                                       dict(facts, encoded_only_basic=True))
+                if is_dc and hexcodec is not None:
+                    rec.evaluation()
+                    try:
+                        hdoc = hexcodec[0].encode(v)
+                        hback = hexcodec[1].decode(hdoc)
+                        hparsed = F["parse"](hdoc)
+                    except Exception as ex:
+                        rec.violation(f"{fname}:codec-custom-bytes-dialect:exception:{type(ex).__name__}", {"type": tast.render(tt), "value": common.short(v, 300),
+                                      "error": f"{type(ex).__name__}: {ex}"[:300], "family": fam.to_json()}, {"format": fname, "route": "codec-custom-bytes-dialect"})
+                    else:
+                        def _has_raw_bytes(x):
+                            if isinstance(x, bytes):
+                                return True
+                            if isinstance(x, dict):
+                                return any(_has_raw_bytes(a) or _has_raw_bytes(b) for a, b in x.items())
+                            return isinstance(x, (list, tuple)) and any(_has_raw_bytes(a) for a in x)
+                        here = {n[0] for n in common.deep_nodes(fam, tt)}
+                        # (bytes below an Any / pass_through position or in a nested class with its own Config are not the codec's)
+                        strict = "bytes" in here and not ({"any", "dc", "gdc", "stype", "boxed", "lit", "bytearray"} & (here - {"dc"})) and sum(1 for n in common.deep_nodes(fam, tt) if n[0] == "dc") <= 1
+                        if not deep_eq(hback, v, key_order=False):
+                            rec.violation(f"{fname}:codec-custom-bytes-dialect:roundtrip-mismatch", {"type": tast.render(tt), "value": common.short(v, 300),
+                                          "decoded": common.short(hback, 300), "document": common.short(hparsed, 300), "family": fam.to_json()},
+                                          {"format": fname, "route": "codec-custom-bytes-dialect"})
+                        elif strict and _has_raw_bytes(hparsed):
+                            rec.violation(f"{fname}:codec-custom-bytes-dialect:native-bytes-in-document", {"type": tast.render(tt), "value": common.short(v, 300),
+                                          "document": common.short(hparsed, 300), "family": fam.to_json()}, {"format": fname, "route": "codec-custom-bytes-dialect"})
+                        else:
+                            rec.count("custom_bytes_dialect_roundtrip_ok")
                 # (c) routes agree
                 parsed = {}
                 for rn, doc in docs.items():
@@ -288,6 +347,51 @@ def run_case(seed, tier, rec, st):
                 if j == 0 and tname == "dataclass":
                     rec.sample({"format": fname, "mixins": mixins, "inner_type": tast.render(inner), "value": common.short(v, 200),
                                 "document": common.short(docs.get("codec"), 200)})
+    finally:
+        fam.dispose()
+
+
+def orjson_config_options_case(rng, rec):
+    """Config.orjson_options belongs to the class that declares it: several ORJSON classes with different options in one
+    process, first used in random order; the document is what orjson makes of the pre-dump tree under THAT class's options."""
+    import orjson
+    fam = Family("c04o")
+    try:
+        opts = ["orjson.OPT_SORT_KEYS", "orjson.OPT_INDENT_2", "orjson.OPT_APPEND_NEWLINE", "orjson.OPT_NAIVE_UTC", "orjson.OPT_UTC_Z",
+                "orjson.OPT_OMIT_MICROSECONDS", "orjson.OPT_SORT_KEYS | orjson.OPT_INDENT_2", "orjson.OPT_NAIVE_UTC | orjson.OPT_UTC_Z", None, None]
+        n = rng.randint(2, 4)
+        chosen = [rng.choice(opts) for _ in range(n)]
+        src = "import orjson\n"
+        for i, o in enumerate(chosen):
+            lazy = "        lazy_compilation = True\n" if rng.random() < 0.3 else ""
+            cfg = (f"    class Config(BaseConfig):\n        orjson_options = {o}\n" + lazy) if o else (("    class Config(BaseConfig):\n" + lazy) if lazy else "")
+            src += (f"@dataclass\nclass O{i}(DataClassORJSONMixin):\n    zz: int = 1\n    when: datetime.datetime = datetime.datetime(2020, 1, 2, 3, 4, 5, 678)\n"
+                    f"    aa: Dict[str, int] = field(default_factory=lambda: {{'b': 1, 'a': 2}})\n    aware: Optional[datetime.datetime] = None\n" + cfg)
+        fam.exec_src(src)
+        import datetime
+        order = list(range(n))
+        rng.shuffle(order)
+        ident = lambda x, **kw: x
+        for rnd in range(2):
+            for i in order:
+                rec.evaluation()
+                cls = getattr(fam.module, f"O{i}")
+                v = cls(zz=rnd, aware=datetime.datetime(2021, 5, 6, 7, 8, 9, 10, tzinfo=datetime.timezone.utc))
+                declared = eval(chosen[i], {"orjson": orjson}) if chosen[i] else 0
+                try:
+                    doc = v.to_jsonb()
+                    exp = orjson.dumps(v.to_jsonb(encoder=ident), option=declared)
+                    txt = v.to_json()
+                except Exception as ex:
+                    rec.violation(f"orjson:config-options:exception:{type(ex).__name__}", {"source": src, "class": f"O{i}", "order": order, "error": f"{type(ex).__name__}: {ex}"[:300]},
+                                  {"format": "orjson", "scenario": "config-orjson-options"})
+                    continue
+                if doc == exp and txt == exp.decode():
+                    rec.count("orjson_config_options_honoured")
+                    rec.nontrivial(("orjson-config-options", tuple(chosen), tuple(order), i, rnd))
+                else:
+                    rec.violation("orjson:config-options:document-ignores-the-class-options", {"source": src, "class": f"O{i}", "declared": chosen[i], "first_use_order": order,
+                                  "document": repr(doc)[:300], "expected": repr(exp)[:300]}, {"format": "orjson", "scenario": "config-orjson-options"})
     finally:
         fam.dispose()
 
